@@ -219,6 +219,26 @@ func vpH_C14_partial() {
 	vpReach("end")
 }
 
+// IRIs that carry another URL inside (a redirect target in the query, a proxied URL in the path):
+// everything left of the inner "://" still counts
+func vpH_C14_embedded_url() {
+	h1, h2 := vpLetterCase(), vpLetterCase()
+	s1, s2 := vpLetterCase(), vpLetterCase()
+	inner := []string{"?to=https://x.ex/q", "/https://x.ex/q", "?a=1&to=http://x.ex/"}[vpChoice(3)]
+	a := IRI("https://" + string([]byte{h1}) + ".ex/" + string([]byte{s1}) + inner)
+	b := IRI([]string{"https", "http"}[vpChoice(2)] + "://" + string([]byte{h2}) + ".ex/" + string([]byte{s2}) + inner)
+	same := vpFold(h1) == vpFold(h2) && vpFold(s1) == vpFold(s2)
+	cs := vpBool()
+	if !same {
+		vpAssert("embedded/different-outer-parts-unequal", !a.Equals(b, cs) && !b.Equals(a, cs))
+		vpAssert("embedded/contains-agrees", !IRIs{a}.Contains(b) && !IRIs{b}.Contains(a))
+	} else if !cs {
+		vpAssert("embedded/same-outer-parts-equal", a.Equals(b, false) && b.Equals(a, false))
+	}
+	vpAssert("embedded/reflexive", a.Equals(a, cs) && b.Equals(b, cs))
+	vpReach("end")
+}
+
 // thorough: everything varied together on two segments and two pairs
 func vpT_C14_full() {
 	ka, va := vpQuery(vpChoice(3))
